@@ -1108,5 +1108,8 @@ Definition address_taken : list string :=
 Definition call_cycles : list string :=
   [].
 
+Definition static_objects : list string :=
+  ["snoopy_configfile_optionRegistry"; "snoopy_configuration_altConfigFilePath"; "snoopy_configuration_altConfigFilePathBuf"; "snoopy_configuration_configFileParsingEnabled"; "snoopy_datasourceregistry_names"; "snoopy_datasourceregistry_ptrs"; "snoopy_filterregistry_names"; "snoopy_filterregistry_ptrs"; "snoopy_inputdatastorage_setDefaults:empty_string"; "snoopy_inputdatastorage_setDefaults:empty_string_array"; "snoopy_outputregistry_names"; "snoopy_outputregistry_ptrs"; "snoopy_tsrm_init_onceControl"; "snoopy_tsrm_threadRepo"; "snoopy_tsrm_threadRepo_data"; "snoopy_tsrm_threadRepo_mutex"; "snoopy_tsrm_threadRepo_mutexAttr"].
+
 Definition ast_externals : list string :=
   ["__ctype_b_loc"; "__errno_location"; "access"; "atoi"; "atol"; "calloc"; "clearerr"; "close"; "closelog"; "connect"; "dlsym"; "dprintf"; "endutent"; "fclose"; "feof"; "ferror"; "fgets"; "fopen"; "fprintf"; "fread"; "free"; "getcwd"; "getegid"; "getenv"; "geteuid"; "getgid"; "getgrgid_r"; "gethostname"; "getline"; "getlogin_r"; "getpid"; "getppid"; "getpwuid_r"; "getsid"; "gettimeofday"; "getuid"; "getutline_r"; "inet_ntop"; "localtime_r"; "malloc"; "memcpy"; "open"; "openlog"; "pthread_atfork"; "pthread_equal"; "pthread_mutex_init"; "pthread_mutex_lock"; "pthread_mutex_unlock"; "pthread_mutexattr_init"; "pthread_mutexattr_settype"; "pthread_once"; "pthread_self"; "send"; "setutent"; "snprintf"; "socket"; "sscanf"; "stat"; "strcasestr"; "strcat"; "strchr"; "strcmp"; "strcpy"; "strdup"; "strerror_r"; "strftime"; "strlen"; "strncmp"; "strncpy"; "strndup"; "strnlen"; "strrchr"; "strstr"; "strtok_r"; "syscall"; "sysconf"; "syslog"; "time"; "ttyname_r"; "utmpname"; "write"].
